@@ -51,6 +51,8 @@ impl Minimizer {
     /// The minimization is done using the subset construction algorithm.
     /// The method takes a DFA and returns a minimized DFA.
     pub(crate) fn minimize(dfa: CompiledDfa) -> CompiledDfa {
+        #[cfg(feature = "verif_hooks")]
+        crate::verif_hooks::minimizer_entry(&dfa);
         trace!("Minimize DFA ----------------------------");
         trace!("Initial DFA:\n{}", dfa);
         // The transitions of the DFA in a convenient data structure.
@@ -262,6 +264,8 @@ impl Minimizer {
 
         trace!("Minimized DFA:\n{}", dfa);
 
+        #[cfg(feature = "verif_hooks")]
+        crate::verif_hooks::minimizer_exit(&dfa);
         dfa
     }
 
